@@ -50,7 +50,7 @@ Lemma rebuild_ext o l1 l2 :
 Proof.
   intro H.
   apply (forest_mind
-           (fun t => match t with Leaf _ => True | Node g => forall out lfs st any, rebuild_items o l1 out g lfs st any = rebuild_items o l2 out g lfs st any end)
+           (fun t => match t with Leaf _ _ => True | Node g => forall out lfs st any, rebuild_items o l1 out g lfs st any = rebuild_items o l2 out g lfs st any end)
            (fun f => forall out lfs st any, rebuild_items o l1 out f lfs st any = rebuild_items o l2 out f lfs st any)).
   - intros; exact I.
   - intros f IH. exact IH.
@@ -110,7 +110,7 @@ Definition fusion_at (items : forest) : Prop :=
 
 Lemma fusion : forall items, fusion_at items.
 Proof.
-  apply (forest_mind (fun t => match t with Leaf _ => True | Node g => fusion_at g end) fusion_at).
+  apply (forest_mind (fun t => match t with Leaf _ _ => True | Node g => fusion_at g end) fusion_at).
   - intros; exact I.
   - intros f IH; exact IH.
   - intros d con prefix self others out base res any. cbn [flat_items]. intros log _. exists res, any. split; reflexivity.
@@ -124,20 +124,20 @@ Proof.
       | ARaised e =>
           abind (abind (others_leaf d others k) (fun ov => AOk (fn (keyarg o prefix k) t ov)))
                 (fun t0 => match t0 with
-                           | Some v => apply_items fn o d con prefix self others out rest (set_result res k v) true
+                           | Some v => apply_items fn o d con prefix self others out rest (set_result o res k v) true
                            | None => apply_items fn o d con prefix self others out rest res any end) = ARaised e
       | AOk (tasks, lfs) =>
           forall log, log_ok log base tasks ->
           exists res' any',
             abind (abind (others_leaf d others k) (fun ov => AOk (fn (keyarg o prefix k) t ov)))
                 (fun t0 => match t0 with
-                           | Some v => apply_items fn o d con prefix self others out rest (set_result res k v) true
+                           | Some v => apply_items fn o d con prefix self others out rest (set_result o res k v) true
                            | None => apply_items fn o d con prefix self others out rest res any end) = AOk (res', any')
             /\ rebuild_items o log out (FCons k t rest) lfs (unopt res) any = RbOk (unopt res', any')
       end).
     { destruct (others_leaf d others k) as [ov|e]; cbn [abind fst snd List.length]; [|reflexivity].
       destruct (fn (keyarg o prefix k) t ov) as [v|] eqn:Efn.
-      - specialize (IHr d con prefix self others out (base + 1) (set_result res k v) true).
+      - specialize (IHr d con prefix self others out (base + 1) (set_result o res k v) true).
         destruct (flat_items o d con prefix self others rest (base + 1)) as [[tr lr]|e]; cbn [abind fst snd]; [|exact IHr].
         intros log Hlog. apply (log_ok_app log base [_] tr) in Hlog. destruct Hlog as [H1 H2]. cbn [List.length] in H2.
         destruct (IHr log H2) as (res' & any' & Ha & Hb). exists res', any'. split; [exact Ha|].
@@ -164,12 +164,12 @@ Proof.
       cbn [rebuild_items]. rewrite <- Hinit, Hbg. cbn [rbbind fst snd].
       rewrite finish_agree.
       destruct (finish_rebuild o g (unopt rg) ag) as [st'|]; cbn [option_map].
-      * specialize (IHr d false prefix self others out (base + List.length tg) (set_result res k (Node st')) true).
+      * specialize (IHr d false prefix self others out (base + List.length tg) (set_result o res k (Node st')) true).
         rewrite Er in IHr. destruct (IHr log H2) as (res' & any' & Ha & Hb). exists res', any'. split; assumption.
       * specialize (IHr d false prefix self others out (base + List.length tg) res any).
         rewrite Er in IHr. destruct (IHr log H2) as (res' & any' & Ha & Hb). exists res', any'. split; assumption.
     + (* the rest raises: the single-threaded form raises the same error, after the nested level *)
-      set (log0 := run_tasks fn (repeat {| tk_key := None; tk_item := Leaf 0; tk_others := [] |} base ++ tg) (seq 0 (base + List.length tg))).
+      set (log0 := run_tasks fn (repeat {| tk_key := None; tk_item := Leaf 0 0; tk_others := [] |} base ++ tg) (seq 0 (base + List.length tg))).
       assert (H1 : log_ok log0 base tg).
       { intros i t Hi. unfold log0. rewrite log_get_run.
         rewrite nth_error_app2 by (rewrite repeat_length; lia). rewrite repeat_length.
@@ -179,7 +179,7 @@ Proof.
         apply existsb_eqb_in in H. rewrite H. reflexivity. }
       destruct (IHt log0 H1) as (rg & ag & Hag & _). rewrite Hag. cbn [abind fst snd].
       destruct (option_map Node (finish_apply o g rg ag)).
-      * specialize (IHr d false prefix self others out (base + List.length tg) (set_result res k t) true). now rewrite Er in IHr.
+      * specialize (IHr d false prefix self others out (base + List.length tg) (set_result o res k t) true). now rewrite Er in IHr.
       * specialize (IHr d false prefix self others out (base + List.length tg) res any). now rewrite Er in IHr.
 Qed.
 End Fusion.
@@ -209,7 +209,7 @@ Lemma flat_length o : forall items d con prefix self others base tasks lfs,
   flat_items o d con prefix self others items base = AOk (tasks, lfs) -> List.length tasks = ntasks con items.
 Proof.
   apply (forest_mind
-           (fun t => match t with Leaf _ => True | Node g =>
+           (fun t => match t with Leaf _ _ => True | Node g =>
               forall d con prefix self others base tasks lfs,
                 flat_items o d con prefix self others g base = AOk (tasks, lfs) -> List.length tasks = ntasks con g end)
            (fun items => forall d con prefix self others base tasks lfs,
@@ -242,9 +242,9 @@ Proof.
 Qed.
 
 Open Scope string_scope.
-Definition inc_fn : userfn := fun _ item _ => match item with Leaf v => Some (Leaf (v + 1)%Z) | Node _ => None end.
+Definition inc_fn : userfn := fun _ item _ => match item with Leaf _ v => Some (Leaf 0 (v + 1)%Z) | Node _ => None end.
 Definition none_fn : userfn := fun _ _ _ => None.
-Definition ex_self : forest := FCons "a" (Leaf 1) (FCons "n" (Node (FCons "c" (Leaf 2) FNil)) FNil).
+Definition ex_self : forest := FCons "a" (Leaf 1 1) (FCons "n" (Node (FCons "c" (Leaf 2 2) FNil)) FNil).
 Definition ex_opts (fe : option bool) : opts := {| o_named := false; o_nested_keys := false; o_inplace := false; o_fe := fe |}.
 
 Lemma path_eqb_eq a b : path_eqb a b = true <-> a = b.
